@@ -16,7 +16,7 @@ Section CoreRun.
   Proof. destruct a as [? ?|? ?|? ?|? ?|? ?|? ?|g]; cbn; try (destruct (rev _)); cbn; auto. destruct g; cbn; try (destruct (dget _ _ _) as [[]|]); try (destruct (is_blank_text _)); try (destruct (none_like _)); try (destruct (Assign.do_assignment _ _ _ _) as [[[|] ?]|]); cbn; auto. Qed.
   Lemma eval_frozen c s l : frozen mx (fst (eval q blanks AND c s l)) = frozen mx s.
   Proof.
-    destruct c as [b|a|b a|g]; cbn; auto using do_action_frozen.
+    destruct c as [b|a|b a|g|na0 i0 k0 r0]; cbn; auto using do_action_frozen.
     - destruct (beval q blanks s l b); cbn; auto using do_action_frozen.
     - apply (do_action_frozen s l (Agg g)).
   Qed.
@@ -91,7 +91,7 @@ Section CoreRun.
   Lemma eval_frame c s l d : writes_comp c <> Some d -> forall key, dget (x mx (fst (eval q blanks AND c s l))) d key = dget (x mx s) d key.
   Proof.
     intros Hw key. unfold writes_comp in Hw.
-    destruct c as [b|a|b a|g]; cbn [eval comp_agg] in *.
+    destruct c as [b|a|b a|g|na0 i0 k0 r0]; cbn [eval comp_agg] in *.
     - reflexivity.
     - destruct a as [? ?|? ?|? ?|? ?|? ?|? ?|g]; try (cbn [fst]; unfold dget; rewrite do_action_dicts; [reflexivity|discriminate]).
       cbn [fst do_action]. apply do_agg_frame. exact Hw.
@@ -99,6 +99,7 @@ Section CoreRun.
       destruct a as [? ?|? ?|? ?|? ?|? ?|? ?|g]; try (cbn [fst]; unfold dget; rewrite do_action_dicts; [reflexivity|discriminate]).
       cbn [fst do_action]. apply do_agg_frame. exact Hw.
     - apply do_agg_frame. exact Hw.
+    - reflexivity.
   Qed.
 
   Notation ev l := (fun (c : comp) (s : cst) => eval q blanks AND c s l).
@@ -222,7 +223,7 @@ Section CoreRun.
 
   Lemma eval_frame_var c s l v : writes_var c <> Some v -> lookup v (vars (x mx (fst (eval q blanks AND c s l)))) = lookup v (vars (x mx s)).
   Proof.
-    intros Hw. destruct c as [b|a|b a|g]; cbn [eval].
+    intros Hw. destruct c as [b|a|b a|g|na0 i0 k0 r0]; cbn [eval].
     - reflexivity.
     - cbn [fst]. apply do_action_frame_var. destruct a as [w e|w e|k e|k e|w k|k e|g]; try exact I; try (intros E0; apply Hw; cbn; rewrite E0; reflexivity).
       destruct g; try exact I; intros E0; apply Hw; cbn; rewrite E0; reflexivity.
@@ -230,6 +231,7 @@ Section CoreRun.
       destruct a as [w e|w e|k e|k e|w k|k e|g]; try exact I; try (intros E0; apply Hw; cbn; rewrite E0; reflexivity).
       destruct g; try exact I; intros E0; apply Hw; cbn; rewrite E0; reflexivity.
     - apply do_agg_frame_var. destruct g; try exact I; intros E0; apply Hw; cbn; rewrite E0; reflexivity.
+    - reflexivity.
   Qed.
 
   Lemma seq_eval_frame_var l v : forall cs s f, Forall (fun c => writes_var c <> Some v) cs ->
@@ -251,7 +253,7 @@ Section CoreRun.
   Lemma init_vars_num v : forall cs vs, num_of (lookup v (init_vars cs vs)) = num_of (lookup v vs).
   Proof.
     unfold init_vars. induction cs as [|c cs IH]; intros vs; [reflexivity|]. cbn [fold_left]. rewrite IH.
-    unfold comp_init. destruct c as [b|a|b a|g]; try reflexivity;
+    unfold comp_init. destruct c as [b|a|b a|g|na0 i0 k0 r0]; try reflexivity;
       try (destruct a as [? ?|? ?|? ?|? ?|? ?|? ?|g]; try reflexivity);
       (destruct g as [i|nm i|nm i n|nm k|nm e|nm i e|nm key' e|i|i j|nm e|nm k0 n0|v0 nm c0|qs0 nm e]; try reflexivity; cbn [agg_init]; destruct (lookup nm vs); first [reflexivity|apply lookup_app_num]).
   Qed.
